@@ -102,6 +102,20 @@ def run_case(ctx, FlowCal, cid, spec, path):
                          exc=core.exc_str(d2.exc) if d2.raised else None, spec=desc):
                 compare(ctx, cid, spec, np.asarray(d2.value), 'asarray(FCSData) after an earlier load was modified in place')
                 ctx.check(d2.value.text.get('$TOT') == str(len(spec['events'])), 'reload-sees-earlier-sample-state', cid)
+    # history: one open file object ("str or file-like") handed to the reader several times in a row; every load reads
+    # the same file from its first byte, wherever the previous load left the position
+    if len(raw) % 4 == 1:
+        with open(path, 'rb') as fh:
+            ctx.counters['chk:handle-reuse'] += 1
+            seq = [('FCSFile', FlowCal.io.FCSFile), ('FCSData', FlowCal.io.FCSData), ('FCSData', FlowCal.io.FCSData)]
+            if len(raw) % 8 == 1:
+                seq = seq[1:] + seq[:1]
+            for i, (nm, ctor) in enumerate(seq):
+                oh = core.attempt(ctor, fh)
+                if ctx.check(not oh.raised, 'supported-layout-refused', cid, where='%s(same handle, load %d)' % (nm, i + 1),
+                             exc=core.exc_str(oh.exc) if oh.raised else None, spec=desc):
+                    compare(ctx, cid, spec, oh.value.data if nm == 'FCSFile' else np.asarray(oh.value),
+                            '%s from a handle already used for %d load(s)' % (nm, i))
     return raw
 
 
